@@ -12,7 +12,7 @@ KEYWORD_VARS = ['select', 'from', 'where', 'group', 'table', 'index', 'union', '
 TRICKY_VARS = ['a_b', 'ab', 'a_bc', 't_0_e', 'col0', 'col1', 'unused_singleton', 's', 'n', 'value', 'arg', 'json',
                'xy_', 'xx', 'z_1', 'logica_v']
 KEYWORD_PREDS = ['Order', 'Select', 'Group', 'Table', 'Index', 'Where', 'From', 'Union', 'Values', 'Limit',
-                 'Join', 'Case', 'Distinct', 'All', 'Exists', 'Primary', 'Check', 'Default']
+                 'Case', 'Distinct', 'All', 'Exists', 'Primary', 'Check', 'Default']
 TRICKY_PREDS = ['Ab', 'Abc', 'A_b', 'T0e', 'Unused', 'Zzz', 'Q1', 'Json', 'Xx', 'Longpredicatename', 'E', 'T']
 
 
